@@ -449,7 +449,13 @@ func generate(rng *vh.Rng, hostile bool) Case {
 			step(Event{E: "d", Msg: mkReq()})
 			continue
 		}
-		switch rng.Pick(wD, wT, wR, 2, 3, 2) {
+		switch rng.Pick(wD, wT, wR, 2, 3, 2, 4) {
+		case 6:
+			// a run of ticks with nothing in between (what the engine does while the
+			// component reports progress; a quiet tick must then stay quiet)
+			for k := 2 + rng.Intn(12); k > 0 && !crashed; k-- {
+				step(Event{E: "tick"})
+			}
 		case 4:
 			if !hostile {
 				m := mkReq()
@@ -489,6 +495,12 @@ func generate(rng *vh.Rng, hostile bool) Case {
 			break
 		}
 		idle := !*c.Events[len(c.Events)-1].Progress
+		if idle && rng.Bool() {
+			if !step(Event{E: "tick"}) {
+				break
+			}
+			idle = !*c.Events[len(c.Events)-1].Progress
+		}
 		if rng.Intn(3) > 0 || idle {
 			if !step(Event{E: "r"}) {
 				break
